@@ -253,17 +253,35 @@ STATE = _State()
 
 def arm(spec, root):
     STATE.fault = Fault(spec, root) if spec else None
+    # which fault is armed *now* is shared too: a helper process the library
+    # forked during an earlier request still carries that request's fault in
+    # its copy of this module, and must not fire it
+    FLAGS.set(3, STATE.fault.gen if STATE.fault else 0)
     _FDS.clear()
+
+
+def _live(fault) -> bool:
+    return fault is not None and FLAGS.get(3) == fault.gen
 
 
 def disarm():
     fault, STATE.fault = STATE.fault, None
+    FLAGS.set(3, 0)
     return bool(fault and fault.fired)
 
 
 def _crash():
     # a process crash: nothing is flushed that was not flushed already,
-    # no exception handler and no finally block of the caller runs
+    # no exception handler and no finally block of the caller runs. When the
+    # crashing process is the node itself, helper processes the library
+    # started go down with it (the node leads its own process group).
+    import signal  # noqa: PLC0415
+
+    if os.getpid() == os.getpgrp():
+        try:
+            os.killpg(0, signal.SIGKILL)
+        except OSError:
+            pass
     os._exit(137)
 
 
@@ -351,7 +369,7 @@ def sim_os_open(path, flags, *args, **kwargs):
     fault = STATE.fault
     writing = bool(flags & (os.O_WRONLY | os.O_RDWR))
     if (
-        fault is not None and not fault.fired and writing
+        _live(fault) and not fault.fired and writing
         and fault.kind in _WRITE_KINDS and fault.covers(path)
     ):
         if fault.kind == "open_eio":
@@ -406,7 +424,7 @@ def sim_open(file, mode="r", *args, **kwargs):
         if tracked is fault and not tracked.fired:
             return _FaultyWriter(real, tracked)
         return real
-    if fault is not None and not fault.fired and not isinstance(file, int):
+    if _live(fault) and not fault.fired and not isinstance(file, int):
         if fault.covers(file):
             writing = any(c in mode for c in "wax+")
             if writing and fault.kind in _WRITE_KINDS:
@@ -426,7 +444,7 @@ def sim_open(file, mode="r", *args, **kwargs):
 
 def sim_mkdir(path, mode=0o777, *args, **kwargs):
     fault = STATE.fault
-    if fault is not None and not fault.fired and fault.covers(path):
+    if _live(fault) and not fault.fired and fault.covers(path):
         if fault.kind == "mkdir_enospc":
             fault.fired = True
             raise OSError(errno.ENOSPC, "No space left on device (injected)")
@@ -443,7 +461,7 @@ def sim_mkdir(path, mode=0o777, *args, **kwargs):
 def _sim_move(real):
     def move(src, dst, *args, **kwargs):
         fault = STATE.fault
-        if fault is not None and not fault.fired and (
+        if _live(fault) and not fault.fired and (
             fault.covers(src) or fault.covers(dst)
         ):
             if fault.kind == "rename_eio":
@@ -488,12 +506,13 @@ def arm_audio(kind):
     AUDIO.kind = kind
     AUDIO.gen = FLAGS.next()
     FLAGS.set(1, 0)
+    FLAGS.set(2, AUDIO.gen if kind else 0)
 
 
 def _audio_point(real, stage):
     """Fault point of an audio call: stage is "open", "read" or "both" (a
     module-level ``soundfile.read`` / ``blocks`` opens and reads)."""
-    if AUDIO.kind is None or AUDIO.fired:
+    if AUDIO.kind is None or AUDIO.fired or FLAGS.get(2) != AUDIO.gen:
         return
     if stage in ("open", "both"):
         if AUDIO.kind == "sf_open_crash":
@@ -559,6 +578,20 @@ class _SfShim:
 # ------------------------------------------------------------------- install
 
 INSTALLED = {"datetime": [], "uuid4": [], "sf": [], "time": []}
+
+
+def install_time() -> None:
+    """The clock seam of the `time` module. Called before the library is
+    imported, so that `from time import sleep, monotonic` binds these."""
+    import time as _time  # noqa: PLC0415
+
+    _time.time = sim_time
+    _time.time_ns = sim_time_ns
+    _time.monotonic = sim_monotonic
+    _time.monotonic_ns = sim_monotonic_ns
+    _time.perf_counter = sim_monotonic
+    _time.perf_counter_ns = sim_monotonic_ns
+    _time.sleep = sim_sleep
 
 
 def install(aoef: bool = True, audio: bool = False) -> dict:
